@@ -3,6 +3,7 @@ package main
 import (
 	"fmt"
 	"go/token"
+	"os"
 	"strings"
 
 	"golang.org/x/tools/go/ssa"
@@ -226,6 +227,13 @@ func runC18(c *Ctx, w *World, r *Report) {
 							bad = fmt.Sprintf("nil error is returned at %s on an edge where the request may have been truncated", w.InstrPos(ret))
 						}
 						continue
+					}
+					if os.Getenv("LOWCHECK_DBG18") != "" {
+						var cs []string
+						for _, c := range leaf.Conds {
+							cs = append(cs, fmt.Sprintf("%v:%s", c.Pol, fmtVal(w, c.V)))
+						}
+						fmt.Fprintln(os.Stderr, "LEAF", fmtVal(w, leaf.V), "trunc", trunc, "notTrunc", notTrunc, "T", T, tb, strings.Join(cs, " ; "))
 					}
 					if under != nil && leaf.V == under {
 						if trunc && nilnessUnder(leaf.Conds, under) != 1 {
